@@ -1,5 +1,6 @@
 import BarterModel.Lemmas.Position
 import BarterModel.Lemmas.KernelsAgree.Position
+import BarterModel.Lemmas.KernelsAgree.PositionSM
 /-!
 # C02 — Position size and realised PnL conserve the cash flows of the fills
 
@@ -297,5 +298,18 @@ theorem kernels_agree_with_source :
     ∧ (∀ s, BarterModel.KernelsAgree.sideTo (BarterModel.KernelsAgree.sideOf s) = s)
     ∧ (∀ s, BarterModel.KernelsAgree.sideOf (BarterModel.KernelsAgree.sideTo s) = s) :=
   BarterModel.KernelsAgree.position_kernels_agree
+
+/-- **Tie of the whole state machine to the source by translation.** `Position::from(&Trade)`,
+`PositionExited::from(Position)`, `Position::{update_pnl_unrealised, update_pnl_realised,
+update_from_trade}` and `PositionManager::update_from_trade` are regenerated from the current
+`barter/src/engine/state/position.rs` by `tools/rust2lean_sm.py` on every run
+(`Generated/Machines.lean`), and each generated function equals the model's function the theorems
+above are about, for all positions, managers and trades, through the record bijections `ofPos` /
+`toPos` and the surjection `ofTrade` (which forgets `order_id` and `strategy`); the proof shows the
+`unreachable!` arm of `update_from_trade` is dead code. The statement is that of
+`KernelsAgree.PositionSM.position_sm_agree` (Lemmas/KernelsAgree/PositionSM.lean). -/
+theorem state_machine_agrees_with_source :
+    type_of% BarterModel.KernelsAgree.PositionSM.position_sm_agree :=
+  BarterModel.KernelsAgree.PositionSM.position_sm_agree
 
 end BarterModel.Props.C02
